@@ -15,10 +15,11 @@ What is a parameter of the model rather than re-implemented:
   it does not.
 Ids are natural numbers; the harness maps its miners (sorted by id), sharders and outsiders to disjoint ranges.
 
-Quirk of the code that the model follows because the harness observes it on the real code: a `node.Pool` that went
-through the MPT (`Pool.UnmarshalMsg`, chaincore/node/node_pool.go:352) has its `Nodes` slice but an empty `NodesMap`, so
-`HasNode`, `Size` and `Keys` see no member. The stored magic block and `gn.PrevMagicBlock` are such pools: they are
-modelled with a `nodes` list (the content) and a `vis` list (what `HasNode`/`Size` see).
+A `node.Pool` is modelled with a `nodes` list (its `Nodes` slice) and a `vis` list (its `NodesMap`: what `HasNode`,
+`Size` and `Keys` see). The msgp round trip through the MPT (`Pool.MarshalMsg` writes the `NodesMap`,
+`Pool.UnmarshalMsg`, chaincore/node/node_pool.go:352, restores `NodesMap` and rebuilds `Nodes` from it — since commit
+964b895; before it the map was lost and every stored pool looked empty) is `Pool.reloaded`. The harness prints both
+lists of the stored magic block, so a pool that loses its visible members again is a disagreement and an oracle violation.
 Core-only.
 -/
 namespace ZChain.ViewChange
@@ -56,6 +57,10 @@ structure Pool where
   nodes : List Nat
   vis : List Nat
 deriving Repr, DecidableEq
+
+/-- what a pool looks like after it was stored in and read back from the state: `MarshalMsg` writes the `NodesMap`,
+`UnmarshalMsg` restores it and rebuilds `Nodes` from it. -/
+def Pool.reloaded (p : Pool) : Pool := ⟨p.vis, p.vis⟩
 
 structure MB where
   number : Int
@@ -250,7 +255,8 @@ def createMagicBlockForWait (s : State) : Res State :=
           let pn := getPhaseNode s
           let mb : MB := { number := s.lfmb.number + 1, start := pn.cur + phaseRounds s.cfg pWait,
                            t := s.dkg.t, k := s.dkg.k, n := s.dkg.n,
-                           miners := ⟨ids nodes2, []⟩, sharders := ⟨shs, []⟩ }
+                           miners := (Pool.mk (ids nodes2) (ids nodes2)).reloaded,
+                           sharders := (Pool.mk shs shs).reloaded }   -- as `getMagicBlock` reads it back
           -- the DKG list itself is NOT saved here (dkg.go:576-580 are commented out)
           .ok { s with viewChange := mb.start, mpks := some [], gsos := some [], mb := some mb, keep := [] }
 
@@ -304,10 +310,6 @@ def adjustViewChange (s : State) : Option State :=
       else some { s with dkg := DKG.empty 0 }
     | .err => some { s with viewChange := (prevMB s).start, dkg := DKG.empty 0 }
 
-/-- what a pool looks like after it was stored in and read back from the state. -/
-def Pool.reloaded (p : Pool) : Pool := ⟨p.nodes, []⟩
-/-- ... and after a second round trip (only `NodesMap` is serialised). -/
-def Pool.reloaded2 (_ : Pool) : Pool := ⟨[], []⟩
 
 /-- the view-change part of `payFees` for the block of round `s.round` (then `gn.LastRound`).
 `.err` = the transaction fails (its state changes are discarded), `.panic` = a Go panic inside the contract. -/
@@ -322,7 +324,8 @@ def payFees (s : State) : Res State :=
         match s2.mb with
         | none => .err            -- "can't set magic block": payFees fails
         | some mb =>
-          .ok { s2 with gnPrev := some { mb with miners := mb.miners.reloaded2, sharders := mb.sharders.reloaded2 },
+          -- gn.PrevMagicBlock = the stored magic block (read back; stored again with the global node)
+          .ok { s2 with gnPrev := some { mb with miners := mb.miners.reloaded, sharders := mb.sharders.reloaded },
                         lastRound := s2.round }
       else .ok { s2 with lastRound := s2.round }
 
